@@ -28,8 +28,13 @@ PRO = common.PROLOGUE + "from Reduino.Actuators import Led, RGBLed, Servo, DCMot
 # builder renders them as literals or as run-time reads.
 
 
-def _op(name, *args, clamp=None, **kwargs):
-    return (name, list(args), dict(kwargs), clamp)
+def _op(name, *args, clamp=None, recv=None, **kwargs):
+    return (name, list(args), dict(kwargs), clamp, recv)
+
+
+def _on(recv, ops):
+    """The same operations addressed to a specific instance (two devices of one kind)."""
+    return [(o[0], o[1], o[2], o[3], recv) for o in ops]
 
 
 LED_OPS = [
@@ -79,7 +84,17 @@ MOTOR_OPS = [
 ]
 MOTOR_GETTERS = ["{n}.get_speed()", "{n}.get_applied_speed()", "{n}.is_inverted()", "{n}.get_mode()"]
 
+def _pick(ops, idxs):
+    return [ops[i] for i in idxs]
+
+
 DEVICES = {
+    # two instances of one kind: state variables and pins must not be mixed up between them
+    "led_pair": ("la = Led(9)\nlb = Led(6)", ("la", "lb"), _on("la", _pick(LED_OPS, [0, 2, 5, 12, 15, 19])) + _on("lb", _pick(LED_OPS, [0, 2, 6, 12, 16, 20])), LED_GETTERS),
+    "rgb_pair": ("ra = RGBLed(3, 5, 6)\nrb = RGBLed(9, 10, 11)", ("ra", "rb"), _on("ra", _pick(RGB_OPS, [1, 2, 3, 8, 14])) + _on("rb", _pick(RGB_OPS, [1, 3, 5, 11, 15])), RGB_GETTERS),
+    "servo_pair": ("sa = Servo(10)\nsb = Servo(12, min_angle=10, max_angle=170, min_pulse_us=1000, max_pulse_us=2000)", ("sa", "sb"),
+                   _on("sa", _pick(SERVO_OPS["default"], [1, 3, 8])) + _on("sb", _pick(SERVO_OPS["narrow"], [1, 3, 7])), SERVO_GETTERS),
+    "motor_pair": ("ma = DCMotor(4, 7, 11)\nmb = DCMotor(2, 8, 5)", ("ma", "mb"), _on("ma", _pick(MOTOR_OPS, [0, 1, 11, 13, 14])) + _on("mb", _pick(MOTOR_OPS, [3, 8, 12, 13, 18])), MOTOR_GETTERS),
     "led": ("led = Led(9)", "led", LED_OPS, LED_GETTERS),
     "rgb": ("rgb = RGBLed(3, 5, 6)", "rgb", RGB_OPS, RGB_GETTERS),
     "servo": ("sv = Servo(10)", "sv", SERVO_OPS["default"], SERVO_GETTERS),
@@ -95,7 +110,9 @@ def _fmt(v) -> str:
 def render_op(name: str, op, mode: str, feed: List[int], pre: List[str]) -> str:
     """mode 'lit': literal arguments; 'rt': every numeric argument is a run-time value held in a
     variable that was read from analog_read just before the call (floats travel scaled by 100)."""
-    meth, args, kwargs, _ = op
+    meth, args, kwargs = op[0], op[1], op[2]
+    if len(op) > 4 and op[4]:
+        name = op[4]
 
     def val(v):
         if mode == "lit":
@@ -123,13 +140,15 @@ def build_case(dev: str, seq: Sequence[int], mode: str, use_clamped: bool, place
         if op[3] is not None:
             clamped_any = True
             if use_clamped:
-                op = (op[0], list(op[3]) + op[1][len(op[3]):], op[2], None)
+                op = (op[0], list(op[3]) + op[1][len(op[3]):], op[2], None, op[4] if len(op) > 4 else None)
         pre: List[str] = []
-        call = render_op(name, op, mode, feed, pre)
+        names = name if isinstance(name, tuple) else (name,)
+        call = render_op(names[0], op, mode, feed, pre)
         lines.extend(pre)
         lines.append(call)
-        for g in getters:
-            lines.append(f"mon.write({g.format(n=name)})")
+        for nm in names:
+            for g in getters:
+                lines.append(f"mon.write({g.format(n=nm)})")
         if not getters:
             lines.append(f'mon.write("#{k}")')
     if mode == "rt" and not feed:
@@ -137,10 +156,10 @@ def build_case(dev: str, seq: Sequence[int], mode: str, use_clamped: bool, place
     if use_clamped and not clamped_any:
         return None
     if placement == "setup":
-        src = common.script([decl] + lines, prologue=PRO)
+        src = common.script(decl.split("\n") + lines, prologue=PRO)
         passes = 0
     else:
-        src = common.script([decl], lines, prologue=PRO)
+        src = common.script(decl.split("\n"), lines, prologue=PRO)
         passes = 2
         feed = feed * 2
     run = {"passes": passes}
@@ -151,6 +170,7 @@ def build_case(dev: str, seq: Sequence[int], mode: str, use_clamped: bool, place
 
 
 CORES = {
+    "led_pair": list(range(12)), "rgb_pair": list(range(10)), "servo_pair": list(range(6)), "motor_pair": list(range(10)),
     "led": [0, 1, 2, 5, 9, 12, 15, 19],
     "rgb": [1, 2, 3, 6, 8, 11, 14],
     "servo": [1, 3, 5, 8, 10, 12],
